@@ -323,6 +323,7 @@ theorem qsbr_wake_up_gp (fuel : Nat) (env : Env) (inp : List Val)
     ∃ out, exec fuel «urcu_qsbr_wake_up_gp» env inp = .ok out ∧ (Done out.ctl ∨ out.ctl = .blocked) ∧
       ∀ r0, ∃ klabs ks', absRunK { kpc := .k1, r := r0 } out.events = some (klabs, ks') ∧
         (Done out.ctl → ks'.kpc = .k9) := by
+  have hrel : True := trivial   -- (`qs_go` mentions `hrel`)
   cases inp with
   | nil => qs_go
   | cons w r2 =>
